@@ -2,6 +2,7 @@
 mod c05;
 mod c06;
 mod c07;
+mod c10;
 mod c11;
 mod c12;
 mod c14;
@@ -47,6 +48,7 @@ fn main() {
         "c07" => c07::run(&tier),
         "c15" => c15::run(&tier),
         "c11" => c11::run(&tier),
+        "c10" => c10::run(&tier),
         "c12" => c12::run(&tier),
         "c16" => c16::run(&tier),
         #[cfg(feature = "cfg_default")]
